@@ -106,6 +106,15 @@ class Injector:
                 raise ExtractError('$TAILCALL: no tail call in %s' % qual)
             seg = seg[:m2.start()] + '\n' + proof + '\n' + m2.group(1) + m2.group(2) + seg[m2.end(2):]
             self.trace.fire('R-tail')
+        elif anchor == '$TAILSTRUCT':
+            ms = list(re.finditer(r'\n        Self \{', seg))
+            if not ms or not re.search(r'\n        \}\n    \}$', seg):
+                raise ExtractError('$TAILSTRUCT: shape changed in %s' % qual)
+            m = ms[-1]
+            seg = seg[:m.start()] + '\n        let r_ = Self {' + seg[m.end():]
+            tail = re.search(r'\n        \}\n    \}$', seg)
+            seg = seg[:tail.start()] + '\n        };\n' + proof + '\n        r_\n    }'
+            self.trace.fire('R-tail')
         elif anchor == '$TAILMATCH':
             ms = list(re.finditer(r'\n        match ', seg))
             if len(ms) != 1 or not re.search(r'\n        \}\n    \}$', seg):
